@@ -1,6 +1,7 @@
 (* C19 - a saved fact store reloads to the same set of facts. *)
-From Coq Require Import List ZArith Bool.
-From MV Require Import Serde.SimpleColumn Serde.SimpleColumnProofs.
+From Coq Require Import List ZArith Bool Lia Permutation.
+From MV Require Import Serde.SimpleColumn Serde.SimpleColumnProofs
+                       Serde.SimpleColumnLazyProofs Serde.SimpleColumnDetProofs.
 Import ListNotations.
 Open Scope Z_scope.
 
@@ -12,69 +13,119 @@ Open Scope Z_scope.
    A listed predicate e = ((symbol, arity), rows) is admissible (pred_ok) when the symbol is
    non-empty without blank / newline, its header line is shorter than 64 KiB, arity <= 1024,
    at most 2^32 rows, every row has `arity` admissible constants, and a zero-arity predicate
-   lists at most one fact. [ordered det S] is the order WriteTo emits (S itself without the
+   lists at most one fact. A store St (ListPredicates in its order, per predicate the atoms
+   GetFacts yields in its order) is admissible when every listed predicate is and there are
+   at most 65536 of them. [ordered det St] is the order WriteTo emits (St itself without the
    deterministic option; sorted by (arity, symbol) and (Atom.Hash, Atom.String) with it). *)
 
-(* read_into (write S) = S: for every store, plain / gzip / zstd (any pair of functions with
-   decompress (compress b) = b), deterministic or not, ReadInto performs exactly the Add calls
-   of the written facts, in the order written; and those are the facts of S. *)
+(* read_into (write S) = S: for every admissible store, plain / gzip / zstd (any pair of
+   functions with decompress (compress b) = b), deterministic or not, ReadInto performs exactly
+   the Add calls of the written facts, in the order written; and those are the facts of S,
+   each as often as S lists it. *)
 Theorem read_write_exact :
   forall (const : Type) (const_eqb : const -> const -> bool) (print : const -> bytes)
          (parse : bytes -> option const) (fhash : bytes -> list const -> Z)
          (compress decompress : bytes -> bytes),
     (forall b, decompress (compress b) = b) ->
     forall (St : pstore const) (det : bool),
-      Forall (pred_ok const print parse) (ordered print fhash det St) ->
+      Forall (pred_ok const print parse) St ->
       Z.of_nat (length St) <= max_num_preds ->
       exists ls added,
         write const print fhash fixed det St = Some ls /\
         read_into const const_eqb parse fixed (scan_lines (decompress (compress (unlines ls)))) = Some added /\
         added = facts_of (ordered print fhash det St) /\
+        Permutation added (facts_of St) /\
         (forall f, In f added <-> In f (facts_of St)).
 Proof.
   intros const const_eqb print parse fhash compress decompress Hc St det F L.
-  destruct (read_write_exact_all const const_eqb print parse fhash St det F L) as [ls [W R]].
+  destruct (read_write_exact_store const const_eqb print parse fhash St det F L) as [ls [W R]].
   exists ls, (facts_of (ordered print fhash det St)). rewrite Hc.
   split; [exact W|]. split; [exact R|]. split; [reflexivity|].
+  split; [apply ordered_facts_perm|].
   intro f. apply ordered_same_facts.
 Qed.
 Print Assumptions read_write_exact.
 
-(* the hypotheses are satisfiable by a store with a '%' name, a zero-arity fact, an empty
-   predicate and two columns (constants are their own printed form here) *)
-Definition ex_store : pstore bytes := [(([112], 1%nat), [[[47; 37]]])].      (* p(/%) *)
+(* Witness store for the hypotheses (constants are their own printed form): a zero-arity
+   fact z, an empty predicate e/1, and p/2 with a '%' name: p(/%, a), p(b, c). *)
+Definition ex_store : pstore bytes :=
+  [ (([122], 0%nat), [[]]);
+    (([101], 1%nat), []);
+    (([112], 2%nat), [[[47; 37]; [97]]; [[98]; [99]]]) ].
+
+Ltac t_const_ok :=
+  split; [discriminate|]; split; [cbn; intuition discriminate|];
+  split; [vm_compute; discriminate|]; split; [vm_compute; reflexivity|reflexivity].
+Ltac t_rows_ok :=
+  let r := fresh "r" in let Hr := fresh "Hr" in
+  intros r Hr; cbn in Hr;
+  repeat (destruct Hr as [<-|Hr];
+          [split; [reflexivity | repeat (constructor; [t_const_ok|]); constructor] |]);
+  destruct Hr.
+Ltac t_pred_ok :=
+  unfold pred_ok; cbn [fst snd];
+  split; [discriminate|]; split; [cbn; intuition discriminate|]; split; [cbn; intuition discriminate|];
+  split; [vm_compute; reflexivity|]; split; [vm_compute; discriminate|]; split; [vm_compute; discriminate|];
+  split; [t_rows_ok | cbn; intros; try discriminate; lia].
+
+Lemma ex_store_ok : Forall (pred_ok bytes (fun c => c) (fun b => Some b)) ex_store.
+Proof. unfold ex_store. repeat (constructor; [t_pred_ok|]). constructor. Qed.
+
 Example read_write_exact_nonvacuous :
-  Forall (pred_ok bytes (fun c => c) (fun b => Some b)) (ordered (fun c => c) (fun _ _ => 0) false ex_store) /\
+  Forall (pred_ok bytes (fun c => c) (fun b => Some b)) ex_store /\
   Z.of_nat (length ex_store) <= max_num_preds.
+Proof. split; [exact ex_store_ok | vm_compute; discriminate]. Qed.
+
+(* The lazy store: for every admissible store whose listing names no predicate twice and
+   every query atom q (Some c = constant, None = variable, as many arguments as the arity of
+   its predicate symbol), NewSimpleColumnStore succeeds on the written bytes and GetFacts calls
+   back exactly the written facts that match q, in file order; as a set these are the facts of
+   St that match q. The proof is the offset lemma (locate_answer: after the header entries of
+   St1 the loop has counted 1 + n + sum count*arity lines = header + blocks of St1) composed
+   with read_pred_exact below. Contains(f) is this with q = f. *)
+Theorem lazy_get_facts_exact :
+  forall (const : Type) (const_eqb : const -> const -> bool) (print : const -> bytes)
+         (parse : bytes -> option const) (fhash : bytes -> list const -> Z)
+         (compress decompress : bytes -> bytes),
+    (forall b, decompress (compress b) = b) ->
+    forall (St : pstore const) (det : bool) (q : pattern const),
+      Forall (pred_ok const print parse) St ->
+      Z.of_nat (length St) <= max_num_preds ->
+      NoDup (map fst St) ->
+      length (snd q) = snd (fst q) ->
+      exists ls lz got,
+        write const print fhash fixed det St = Some ls /\
+        lz_new (decompress (compress (unlines ls))) = Some lz /\
+        lz_get_facts const const_eqb parse lz q = Some got /\
+        got = filter (matches const_eqb q) (facts_of (ordered print fhash det St)) /\
+        (forall f, In f got <-> In f (facts_of St) /\ matches const_eqb q f = true).
 Proof.
-  split; [|vm_compute; discriminate].
-  unfold ordered, ex_store. constructor; [|constructor].
-  unfold pred_ok. cbn [fst snd].
-  split; [discriminate|].
-  split; [intros [H|[]]; discriminate|].
-  split; [intros [H|[]]; discriminate|].
-  split; [vm_compute; reflexivity|].
-  split; [vm_compute; discriminate|].
-  split; [vm_compute; discriminate|].
-  split; [|discriminate].
-  intros r [<-|[]]. split; [reflexivity|]. constructor; [|constructor].
-  unfold const_ok.
-  split; [discriminate|].
-  split; [intros [H|[H|[]]]; discriminate|].
-  split; [vm_compute; discriminate|].
-  split; [vm_compute; reflexivity|reflexivity].
+  intros const const_eqb print parse fhash compress decompress Hc St det q F L N Hq.
+  destruct (lazy_get_facts_exact_all const const_eqb print parse fhash St det q F L N Hq)
+    as [ls [lz [W [Z G]]]].
+  exists ls, lz, (filter (matches const_eqb q) (facts_of (ordered print fhash det St))).
+  rewrite Hc. split; [exact W|]. split; [exact Z|]. split; [exact G|]. split; [reflexivity|].
+  intro f. rewrite filter_In, ordered_same_facts. reflexivity.
+Qed.
+Print Assumptions lazy_get_facts_exact.
+
+Example lazy_get_facts_exact_nonvacuous :
+  let q : pattern bytes := (([112], 2%nat), [None; Some [99]]) in              (* p(X, c) *)
+  Forall (pred_ok bytes (fun c => c) (fun b => Some b)) ex_store /\
+  Z.of_nat (length ex_store) <= max_num_preds /\
+  NoDup (map fst ex_store) /\
+  length (snd q) = snd (fst q) /\
+  filter (matches bytes_eqb q) (facts_of ex_store) = [(([112], 2%nat), [[98]; [99]])].
+Proof.
+  cbv zeta. split; [exact ex_store_ok|]. split; [vm_compute; discriminate|].
+  split; [|split; reflexivity].
+  cbn. repeat (constructor; [cbn; intuition discriminate|]). constructor.
 Qed.
 
-(* One predicate block under a query pattern (the core of the lazy store): reading the
-   column-major block of `rows` with the filter FS of a query returns exactly the rows
-   that match the constants of the pattern, in order, and leaves the rest of the file.
-   Full statement of lazy_get_facts_exact, of which this is the proved part:
-     forall S det q ls, pred_ok on (ordered det S), NoDup (map fst S), length (snd q) = arity ->
-       write fixed det S = Some ls ->
-       exists lz, lz_new (unlines ls) = Some lz /\
-         lz_get_facts lz q = Some (filter (matches q) (facts_of (ordered det S)))
-   (remaining: the offset lemma 1 + n + sum count*arity over `locate`). *)
-Theorem lazy_get_facts_exact_partial :
+(* One predicate block under a query pattern (the core of readPred): reading the column-major
+   block of `rows` with the filter FS returns exactly the rows that match the constants of the
+   pattern, in order, and leaves the rest of the file untouched. *)
+Theorem read_pred_exact :
   forall (const : Type) (const_eqb : const -> const -> bool) (print : const -> bytes)
          (parse : bytes -> option const)
          (ar : nat) (FS : list (option const)) (rows : list (list const)) (rest : list bytes),
@@ -87,24 +138,91 @@ Proof.
   intros const const_eqb print parse ar FS rows rest H1 H2.
   exact (read_pred_ok const const_eqb print parse ar FS rows rest H1 H2).
 Qed.
-Print Assumptions lazy_get_facts_exact_partial.
+Print Assumptions read_pred_exact.
 
-(* deterministic_bytes - NOT proved in this round. Full statement:
-     forall S1 S2, NoDup (map fst S1) -> Permutation (map fst S1) (map fst S2) ->
-       (forall p r1 r2, In (p, r1) S1 -> In (p, r2) S2 -> NoDup r1 /\ Permutation r1 r2) ->
-       (Atom.String injective on the rows of each predicate) ->
-       write V true S1 = write V true S2
-   The order sorted by: predicates by (arity, symbol bytewise), facts by (Atom.Hash, Atom.String
-   bytewise). Checked on every deterministic case of the correspondence (bytes from a reordered
-   listing and from four in-memory store kinds must be equal). The proved ingredient: *)
-Theorem deterministic_bytes_partial :
+(* deterministic_bytes: with the deterministic option the outcome of WriteTo - the lines
+   written, or the error - is a function of the SET of listed predicates and the SET of facts:
+   two stores that list no predicate twice and no fact twice, list the same predicates and hold
+   the same facts (in whatever orders) produce the same output, for both versions of the
+   writer, provided the sort key of the facts (Atom.Hash, Atom.String) is injective on the
+   facts of each predicate. The sort orders: predicates by (arity, symbol bytewise) - a strict
+   total order on predicate symbols, no hypothesis needed; facts by (Atom.Hash, Atom.String
+   bytewise) - strict and transitive always, total exactly under the injectivity hypothesis.
+   On pairwise distinct keys a list has one sorted permutation (sorted_perm_eq), so every
+   correct sort - the model's insertion sort, Go's sort.Slice - returns it.
+   No admissibility of constants is needed. *)
+Theorem deterministic_bytes :
   forall (const : Type) (print : const -> bytes) (fhash : bytes -> list const -> Z)
-         (St : pstore const) (f : fact const),
-    In f (facts_of (ordered print fhash true St)) <-> In f (facts_of St).
+         (compress : bytes -> bytes) (V : ver) (S1 S2 : pstore const),
+    NoDup (map fst S1) -> (forall e, In e S1 -> NoDup (snd e)) ->
+    NoDup (map fst S2) -> (forall e, In e S2 -> NoDup (snd e)) ->
+    (forall p, In p (map fst S1) <-> In p (map fst S2)) ->
+    (forall f, In f (facts_of S1) <-> In f (facts_of S2)) ->
+    (forall p rows r1 r2, In (p, rows) S1 -> In r1 rows -> In r2 rows ->
+       fhash (fst p) r1 = fhash (fst p) r2 ->
+       atom_string const print (fst p) r1 = atom_string const print (fst p) r2 -> r1 = r2) ->
+    write const print fhash V true S1 = write const print fhash V true S2 /\
+    option_map compress (write_bytes const print fhash V true S1)
+    = option_map compress (write_bytes const print fhash V true S2).
 Proof.
-  intros. apply ordered_same_facts.
+  intros const print fhash compress V S1 S2 N1a N1b N2a N2b P F K.
+  assert (E : write const print fhash V true S1 = write const print fhash V true S2)
+    by (apply (write_det_set const print fhash S1 S2 (conj N1a N1b) (conj N2a N2b) P F K)).
+  split; [exact E|]. unfold write_bytes. rewrite E. reflexivity.
 Qed.
-Print Assumptions deterministic_bytes_partial.
+Print Assumptions deterministic_bytes.
+
+(* two different listings of one set: q(b), q(a), p(a) and p(a), q(a), q(b) *)
+Definition det_s1 : pstore bytes := [ (([113], 1%nat), [[[98]]; [[97]]]); (([112], 1%nat), [[[97]]]) ].
+Definition det_s2 : pstore bytes := [ (([112], 1%nat), [[[97]]]); (([113], 1%nat), [[[97]]; [[98]]]) ].
+Example deterministic_bytes_nonvacuous :
+  det_s1 <> det_s2 /\
+  NoDup (map fst det_s1) /\ (forall e, In e det_s1 -> NoDup (snd e)) /\
+  NoDup (map fst det_s2) /\ (forall e, In e det_s2 -> NoDup (snd e)) /\
+  (forall p, In p (map fst det_s1) <-> In p (map fst det_s2)) /\
+  (forall f, In f (facts_of det_s1) <-> In f (facts_of det_s2)) /\
+  (forall p rows r1 r2, In (p, rows) det_s1 -> In r1 rows -> In r2 rows ->
+     (fun _ _ => 0) (fst p) r1 = (fun _ _ => 0) (fst p) r2 ->
+     atom_string bytes (fun c => c) (fst p) r1 = atom_string bytes (fun c => c) (fst p) r2 -> r1 = r2).
+Proof.
+  split; [discriminate|].
+  split; [cbn; repeat (constructor; [cbn; intuition discriminate|]); constructor|].
+  split; [intros e [<-|[<-|[]]]; cbn; repeat (constructor; [cbn; intuition discriminate|]); constructor|].
+  split; [cbn; repeat (constructor; [cbn; intuition discriminate|]); constructor|].
+  split; [intros e [<-|[<-|[]]]; cbn; repeat (constructor; [cbn; intuition discriminate|]); constructor|].
+  split; [intro p; cbn; tauto|].
+  split; [intro f; cbn; tauto|].
+  intros p rows r1 r2 HI H1 H2 _ HS.
+  destruct HI as [E|[E|[]]]; inversion E; subst; clear E; cbn in H1, H2;
+    repeat match goal with
+           | H : _ \/ _ |- _ => destruct H
+           | H : False |- _ => destruct H
+           end; subst; try reflexivity; vm_compute in HS; discriminate.
+Qed.
+
+(* The injectivity hypothesis cannot be dropped: two distinct facts of one predicate with the
+   same hash and the same Atom.String (here p(a,b , c) and p(a , b,c) over constants that
+   print with a comma) are emitted in listing order. In Go this needs two distinct atoms of one
+   predicate that agree on Hash() and String(). *)
+Theorem deterministic_bytes_key_inj_needed :
+  exists (S1 S2 : pstore bytes),
+    NoDup (map fst S1) /\ (forall e, In e S1 -> NoDup (snd e)) /\
+    NoDup (map fst S2) /\ (forall e, In e S2 -> NoDup (snd e)) /\
+    (forall p, In p (map fst S1) <-> In p (map fst S2)) /\
+    (forall f, In f (facts_of S1) <-> In f (facts_of S2)) /\
+    write bytes (fun c => c) (fun _ _ => 0) fixed true S1 <> write bytes (fun c => c) (fun _ _ => 0) fixed true S2.
+Proof.
+  exists [ (([112], 2%nat), [[[97; 44; 98]; [99]]; [[97]; [98; 44; 99]]]) ],
+         [ (([112], 2%nat), [[[97]; [98; 44; 99]]; [[97; 44; 98]; [99]]]) ].
+  split; [cbn; repeat (constructor; [cbn; intuition discriminate|]); constructor|].
+  split; [intros e [<-|[]]; cbn; repeat (constructor; [cbn; intuition discriminate|]); constructor|].
+  split; [cbn; repeat (constructor; [cbn; intuition discriminate|]); constructor|].
+  split; [intros e [<-|[]]; cbn; repeat (constructor; [cbn; intuition discriminate|]); constructor|].
+  split; [intro p; cbn; tauto|].
+  split; [intro f; cbn; tauto|].
+  vm_compute. discriminate.
+Qed.
+Print Assumptions deterministic_bytes_key_inj_needed.
 
 (* Concrete instance for the witnesses: a constant is its own printed form. *)
 Definition w_print (c : bytes) : bytes := c.
